@@ -1,7 +1,10 @@
 """Facts for C12 (reset optimisations).  Data only; fail closed (raise -> sentinel).
 
 reset_pipeline_order : the calls applied to every generated subexperiment, in source order
-reset_scan_shapes    : per list pass [reversed scan?, #break, #del statements, #loops]
+reset_scan_shapes    : per list pass [reversed scan?, #del statements, #loops]  (the early-exit `break`s are pure
+                       optimisations and deliberately NOT pinned)
+reset_call_sites     : every call of a reset pass anywhere in generate_cutting_experiments, in source order, with
+                       "guarded" when it sits under `if not cog.pauli_indices:` and "loop" when in the final loop
 reset_dag_calls      : per transpiler pass the dag methods/attributes used by run()
 """
 from __future__ import annotations
@@ -49,11 +52,9 @@ def fact_reset_scan_shapes():
     items = []
     for name in LIST_PASSES:
         fn = _fn("cutting_experiments.py", name)
-        rev = brk = dele = loops = 0
+        rev = dele = loops = 0
         for node in ast.walk(fn):
-            if isinstance(node, ast.Break):
-                brk += 1
-            elif isinstance(node, ast.Delete):
+            if isinstance(node, ast.Delete):
                 dele += 1
             elif isinstance(node, (ast.For, ast.While)):
                 loops += 1
@@ -61,7 +62,7 @@ def fact_reset_scan_shapes():
                     for sub in ast.walk(node.iter):
                         if isinstance(sub, ast.Call) and isinstance(sub.func, ast.Name) and sub.func.id == "reversed":
                             rev = 1
-        items.append(f"({coq_string(name)}, [{rev}; {brk}; {dele}; {loops}]%nat)")
+        items.append(f"({coq_string(name)}, [{rev}; {dele}; {loops}]%nat)")
     return coq_list(items)
 
 
@@ -79,8 +80,34 @@ def fact_reset_dag_calls():
     return coq_list(items)
 
 
+def fact_reset_call_sites():
+    fn = _fn("cutting_experiments.py", "generate_cutting_experiments")
+    sites = []
+
+    def visit(node, ctx):
+        for ch in ast.iter_child_nodes(node):
+            c = ctx
+            if isinstance(ch, ast.If):
+                t = ch.test
+                guarded = (isinstance(t, ast.UnaryOp) and isinstance(t.op, ast.Not) and isinstance(t.operand, ast.Attribute)
+                           and t.operand.attr == "pauli_indices" and not ch.orelse)
+                c = "guarded" if guarded else "other-if"
+            elif isinstance(ch, (ast.For, ast.While)) and ctx == "top":
+                c = "loop"
+            if isinstance(ch, ast.Call) and isinstance(ch.func, ast.Name) and "reset" in ch.func.id:
+                sites.append((ch.lineno, ch.col_offset, ch.func.id, ctx))
+            visit(ch, c)
+
+    visit(fn, "top")
+    sites.sort()
+    if not sites:
+        raise Shape("no reset pass is called in generate_cutting_experiments")
+    return coq_list([f"({coq_string(n)}, {coq_string(c)})" for _, _, n, c in sites])
+
+
 FACTS = [
     ("reset_pipeline_order", "list string", fact_reset_pipeline_order),
     ("reset_scan_shapes", "list (string * list nat)", fact_reset_scan_shapes),
     ("reset_dag_calls", "list (string * string)", fact_reset_dag_calls),
+    ("reset_call_sites", "list (string * string)", fact_reset_call_sites),
 ]
